@@ -402,6 +402,40 @@ def str_method(self, st, s, name, args, kwargs, node):
             return [(st, "val", s.format(*args, **kwargs))]
         except Exception as e:     # noqa
             return self.raise_exc(st, type(e).__name__, node, "str", str(e))
+    if name == "format" and "**" not in kwargs and any(isinstance(v, Ref) for v in list(args) + list(kwargs.values())):
+        # "{row.id} {examples.name}".format(row=obj, ...): attribute chains on heap objects whose leaves are plain constants
+        class _Unknown(Exception):
+            pass
+
+        class _Proxy(object):
+            def __init__(self, ref):
+                object.__setattr__(self, "_ref", ref)
+
+            def __getattr__(self, attr):
+                o = st.obj(object.__getattribute__(self, "_ref"))
+                if o.kind != "obj" and o.kind is not None and o.kind not in ("obj",):
+                    raise _Unknown()
+                if attr not in o.fields or attr.startswith("@"):
+                    if o.open:
+                        raise _Unknown()
+                    raise AttributeError(attr)
+                return wrap(o.fields[attr])
+
+            def __format__(self, spec):
+                raise _Unknown()      # str() of an object: not folded here
+
+        def wrap(v):
+            if isinstance(v, Ref):
+                return _Proxy(v)
+            if _plain(v):
+                return v
+            raise _Unknown()
+        try:
+            return [(st, "val", s.format(*[wrap(a) for a in args], **{k_: wrap(v_) for k_, v_ in kwargs.items()}))]
+        except _Unknown:
+            pass
+        except Exception as e:     # noqa
+            return self.raise_exc(st, type(e).__name__, node, "str", str(e))
     if name == "translate" and len(args) == 1 and not kwargs and isinstance(args[0], Ref) and st.obj(args[0]).kind == "dict" \
             and st.obj(args[0]).items is not None and all(isinstance(k_, int) and (isinstance(v_, (str, int)) or v_ is None) for k_, v_ in st.obj(args[0]).items):
         return [(st, "val", s.translate(dict(st.obj(args[0]).items)))]
